@@ -179,6 +179,27 @@ pub fn corpus(tier: Tier) -> Vec<String> {
         out.push(format!("-type {}", vec!["f"; k].join(",")));
         out.push(format!("{}", "-depth ".repeat(k)));
     }
+    // 5c. a group as the right (and as the left) operand of each operator, nested 1..64 deep, with
+    // each kind of primary innermost (tree walks that visit an operand more than once cost 2^depth)
+    for k in 1..=64usize {
+        for op in ["-a ", "", "-o ", ", "] {
+            for inner in ["-print0", "-fprint f", "-printf %p", "-print", "-true", "-fls f", "-quit", "-mmin 1"] {
+                let mut right = String::new();
+                for i in 0..k {
+                    right.push_str(&format!("-name a{i} {op}( "));
+                }
+                right.push_str(inner);
+                right.push_str(&" )".repeat(k));
+                out.push(right);
+                let mut left = "( ".repeat(k);
+                left.push_str(inner);
+                for i in 0..k {
+                    left.push_str(&format!(" ) {op}-name a{i}"));
+                }
+                out.push(left);
+            }
+        }
+    }
     // 5a. many distinct resources in one expression (identifier numbers and frame tags grow)
     for k in [2usize, 9, 10, 16, 17, 30, 31, 32, 64, 100, 126, 127, 128, 129, 200, 254, 255, 256, 257, 300] {
         let files: Vec<String> = (0..k).map(|i| format!("-fprint f{i}")).collect();
